@@ -2960,14 +2960,16 @@ class RequestTiming(Runner, Delegator):
 
             start = request_context.request_start
             end = request_context.request_end
-            result["dependent_timing"] = {
-                "operation": params.get("name"),
-                "operation-type": params.get("operation-type"),
-                "absolute_time": absolute_time,
-                "request_start": start,
-                "request_end": end,
-                "service_time": end - start,
-            }
+            # a sub-request may legitimately send nothing (e.g. get-async-search skips searches that have already completed)
+            if start is not None and end is not None:
+                result["dependent_timing"] = {
+                    "operation": params.get("name"),
+                    "operation-type": params.get("operation-type"),
+                    "absolute_time": absolute_time,
+                    "request_start": start,
+                    "request_end": end,
+                    "service_time": end - start,
+                }
         return result
 
     async def __aexit__(self, exc_type, exc_val, exc_tb):
